@@ -23,6 +23,7 @@ RATES = [
     "log(1 + x*x) - x", "-sqrt(1 + x*x)", "Conditional(Gt(x, 0), -x, -2*x)", "Conditional(Gt(y, 0), -x, a)",
     "Conditional(Gt(y, 0), -a*x, -b*x) + y", "-abs(y)*x", "m_inf - x*rate", "(m_inf - x)/tau_m", "alpha*(1 - x) - beta*x",
     "-x*x*y + a", "1/(1 + exp(-x)) - x", "-g_l*(x - e_l) - i_k", "a", "t - x", "-(x - y)/tau", "cos(t)*x",
+    "b - a*abs(x - k)", "-abs(x)*x + y", "-abs(x) + a", "a*abs(x - y) - x", "-k*x*y",
 ]
 
 HEADER = ("parameters(a=0.5, b=2.0, tau=3.0, xinf=1.0, k=0.25, g_l=0.3, e_l=-60.0)\n"
@@ -34,6 +35,8 @@ def programs():
     out = []
     for r in RATES:
         for yr in ["-y + x", "a*(x - y)"]:
+            if r == "-k*x*y":
+                yr = "-k*x*y"   # two states with textually identical rates
             text = HEADER + f"dx_dt = {r}\ndy_dt = {yr}\n"
             out.append({"family": "RL", "id": text_id(text), "text": text, "meta": {"rate": r}})
             break
